@@ -1,5 +1,6 @@
 """Back ends: every obligation becomes one self-contained SMT-LIB2 text, discharged by a portfolio
-z3 5.x (API) -> cvc5 (CLI) -> z3 4.8.12 (CLI).  unsat = discharged; sat only from z3 with a model."""
+z3 5.x (API) -> cvc5 (CLI).  unsat = discharged; sat only from z3 with a model.
+z3 4.8.12 was removed from the portfolio: it answered `unsat` on a satisfiable sequence query (see DESIGN, Changes)."""
 import os
 import subprocess
 import tempfile
@@ -57,10 +58,57 @@ def to_smt2_bounded(assumptions, goal):
                 inst.extend(gen(*app.children()))
             except Exception:
                 pass
+    gax = ghost_axiom_instances(fs)
     s = z3.Solver()
     s.add(*inst)
+    s.add(*[f for _, f in gax])
     s.add(*fs)
-    return s.to_smt2(), ['ground instances only']
+    return s.to_smt2(), ['ground instances only'] + [l for l, _ in gax]
+
+
+_gax_cache = {}
+
+
+def ghost_axioms(names):
+    """closed assumptions (E-* items) attached to the ghost predicates an obligation mentions"""
+    from .state import GHOST_AXIOMS, State
+    from . import spec as SP
+    out = []
+    for g in sorted(GHOST_AXIOMS):
+        if g in names:
+            for label, text, modname in GHOST_AXIOMS[g]:
+                key = (g, label, SP.BOUND[0])
+                if key not in _gax_cache:
+                    st = State()
+                    _gax_cache[key] = SP.SpecEval(st, {}, modname).bool(text)
+                out.append((label, _gax_cache[key]))
+    return out
+
+
+def ghost_axiom_instances(fs):
+    """refutation mode: a ghost axiom  forall xs. (g(xs) and ...) => ...  is instantiated on the ground applications
+    of g present in the query (quantifier-free weakening); axioms of another shape are kept as they are"""
+    from .state import GHOST_AXIOMS
+    names = used_names(fs)
+    out = []
+    for label, f in ghost_axioms(names):
+        g = [k for k, v in GHOST_AXIOMS.items() if any(l == label for l, _, _ in v)][0]
+        if z3.is_quantifier(f) and f.is_forall():
+            apps = ground_apps(fs, g)
+            nv = f.num_vars()
+            done = False
+            for app in apps:
+                if app.num_args() == nv and all(app.arg(i).sort() == f.var_sort(i) for i in range(nv)):
+                    # de Bruijn: var 0 is the innermost (last) bound variable
+                    subst = [app.arg(nv - 1 - i) for i in range(nv)]
+                    out.append((label + '@inst', z3.substitute_vars(f.body(), *subst)))
+                    done = True
+            if done or apps == []:
+                if not apps:
+                    continue
+                continue
+        out.append((label, f))
+    return out
 
 
 def to_smt2(assumptions, goal):
@@ -78,10 +126,12 @@ def to_smt2(assumptions, goal):
                 axioms.extend(BI.AXIOMS[n])
                 names |= used_names(BI.AXIOMS[n])
                 changed = True
+    gax = ghost_axioms(names)
     s = z3.Solver()
     s.add(*axioms)
+    s.add(*[f for _, f in gax])
     s.add(*fs)
-    return s.to_smt2(), sorted(added)
+    return s.to_smt2(), sorted(added) + [l for l, _ in gax]
 
 
 def _z3_api(smt2, timeout_ms, want_model):
@@ -158,14 +208,6 @@ def solve_one(job):
             res.update(verdict='unsat', backend='cvc5-1.0.3')
         elif r != 'unknown' and r2 != 'unknown' and r2 != r:
             res['disagreement'] = (r, r2)
-        if res['verdict'] == 'unknown':
-            r3, dt3, err = _cli(['/usr/bin/z3', '-T:%d' % ot], smt2, ot)
-            res['tried'].append(('z3-4.8.12', r3, round(dt3, 3)))
-            res['seconds'] += dt3
-            if r3 == 'unsat':
-                res.update(verdict='unsat', backend='z3-4.8.12')
-            elif r3 == 'sat' and r2 != 'unsat':
-                res.update(verdict='sat', backend='z3-4.8.12')
     return res
 
 
